@@ -7,6 +7,7 @@ pub mod c06;
 pub mod c07;
 pub mod c09;
 pub mod c10;
+pub mod c17;
 
 pub fn dispatch(env: &Env) -> i32 {
     match env.prop.as_str() {
@@ -17,6 +18,7 @@ pub fn dispatch(env: &Env) -> i32 {
         "C07" => c07::run(env),
         "C09" => c09::run(env),
         "C10" => c10::run(env),
+        "C17" => c17::run(env),
         other => {
             eprintln!("no check for property {other}");
             2
